@@ -56,7 +56,15 @@ def c01_table(rng, sid, nscen):
         steps = [connect(1, "s5", 5), connect(2, "s3", rng.choice([3, 4])), connect(3, "p", pver)]
         n = 0
         rounds = rng.choice([1, 2])
+        # a bystander whose session ends in the middle (its filters are often level-prefixes of, or equal to, the others'):
+        # the others must keep receiving exactly what they subscribed to
+        leaver = rng.random() < 0.5
+        if leaver:
+            steps.append(connect(4, "lv", rng.choice([4, 5])))
+            steps.append(sub(4, rand_subs(rng, False, rng.choice([1, 2, 3]), ["t", "t/u", "x", "t/", "+", "t/+"])))
         for rnd in range(rounds):
+            if leaver and rnd == rounds - 1:
+                steps.append({"op": rng.choice(["disconnect", "abort"]), "k": 4})
             for _ in range(rng.randrange(1, 4)):
                 steps.append(sub(1, rand_subs(rng, True, rng.choice([1, 1, 2])), subid=rng.choice([0, 0, 1, 2, 300])))
             for _ in range(rng.randrange(0, 3)):
@@ -448,6 +456,25 @@ def c12_expiry(rng, sid, nscen):
 def _away(cands, deadlines, gap=500):
     ok = [w for w in cands if all(abs(d - w) >= gap for d in deadlines)]
     return ok
+
+
+def c05_sweeper(rng, sid, n):
+    """scenarios that live through the broker's session-expiry sweep (every 20 s): a resumed session of a CONNECTED client
+    must survive it whatever its earlier offline deadline was; an offline session past its expiry is gone afterwards"""
+    out = []
+    for i in range(n):
+        ver = rng.choice([5, 4])
+        kw = {"expiry": 2} if ver == 5 else {}
+        steps = [connect(9, "obs", 5), connect(8, "pubr", 4), connect(1, "c", ver, clean=False, **kw), sub(1, [{"n": "s/#", "qos": 1}]),
+                 pub(8, "s/t", 1, "live"), BARRIER]
+        if i % 2 == 0:
+            steps += [{"op": "abort", "k": 1}, {"op": "sleep", "ms": 600}, connect(2, "c", ver, clean=False, **kw), BARRIER,
+                      {"op": "sleep", "ms": 22500}, pub(8, "s/t", 1, "after-sweep"), BARRIER]
+        else:
+            steps += [{"op": "disconnect", "k": 1}, api("s/t", 1, "offline"), {"op": "sleep", "ms": 22500},
+                      connect(2, "c", ver, clean=False, **kw), BARRIER, pub(8, "s/t", 1, "after"), BARRIER]
+        out.append({"id": "%s-sweep%d" % (sid, i), "cfg": {"mode": "overlap", "qq0": True, "sessexpiry": 2}, "hooks": True, "steps": steps})
+    return out
 
 
 def c05_sessions(rng, sid, nscen):
